@@ -6,7 +6,7 @@ from datetime import datetime
 import numpy as np
 from hypothesis import strategies as st
 
-from acnportal.acnsim import EV, EVSE, Battery, Current, EventQueue, PluginEvent, Simulator
+from acnportal.acnsim import EV, EVSE, Battery, Current, EventQueue, PluginEvent, Simulator, UnplugEvent
 from acnportal.algorithms import SortedSchedulingAlgo, UncontrolledCharging, first_come_first_served
 from acnportal.contrib.acnsim import StochasticNetwork
 
@@ -89,7 +89,20 @@ def build(spec, picker=None, net=None):
     for s in spec["sessions"]:
         # the space a session declares (as ACN-Data sessions do) is only a hint: assignment is random
         evs[s["id"]] = EV(s["arrival"], s["departure"], s["energy"], s.get("declared"), s["id"], Battery(1000.0, 0.0, 50.0))
-    events = [PluginEvent(evs[s["id"]].arrival, evs[s["id"]]) for s in spec["sessions"]]
+    # cars that are already on site when the simulated day starts: the caller has put them into the
+    # car park himself (network.plugin, the same call the simulator makes) and only their
+    # departures are events of this simulation
+    pre = [s for s in spec["sessions"] if s.get("pre")]
+    if pre:
+        orig = random.choice
+        if picker is not None:
+            random.choice = picker
+        try:
+            for s in pre:
+                net.plugin(evs[s["id"]])
+        finally:
+            random.choice = orig
+    events = [UnplugEvent(evs[s["id"]].departure, evs[s["id"]]) if s.get("pre") else PluginEvent(evs[s["id"]].arrival, evs[s["id"]]) for s in spec["sessions"]]
     order = [i for i in spec.get("event_order", []) if i < len(events)]
     order += [i for i in range(len(events)) if i not in order]
     q = EventQueue([events[i] for i in order])
@@ -119,7 +132,7 @@ def run(sim, picker):
 
 def prop(spec, rec):
     picker = Picker(spec["choices"])
-    net, sim, evs = build(spec)
+    net, sim, evs = build(spec, picker)
     run(sim, picker)
     labels = judge(spec, net, sim, evs, picker, rec, (0, 0, 0))
     if labels is None:
@@ -130,7 +143,7 @@ def prop(spec, rec):
         base = (net.never_charged, net.swaps, net.early_unplug)
         net.before, net.after, net.t = {}, {}, -1
         picker2 = Picker(spec["choices"][::-1])
-        _, sim2, evs2 = build(spec, net=net)
+        _, sim2, evs2 = build(spec, picker2, net=net)
         run(sim2, picker2)
         l2 = judge(spec, net, sim2, evs2, picker2, rec, base)
         if l2 is None:
@@ -165,6 +178,20 @@ def judge(spec, net, sim, evs, picker, rec, base):
         i = ids.index(stn)
         return sum(R[i, tau] for tau in range(p, upto + 1)) * V / 1000.0 * period / 60.0
 
+    for s in spec["sessions"]:
+        # cars put into the car park by the caller before the run, in that order
+        if s.get("pre"):
+            free = [x for x in ids if occ[x] is None]
+            if free:
+                require(pi < len(picker.picks), "plugin_without_station_choice", lambda: "%s was put into the car park before the run with free stations %r but no station was chosen" % (s["id"], free))
+                ch = picker.picks[pi]
+                pi += 1
+                require(ch in free, "chosen_station_not_free", lambda: "before the run: station %s chosen for %s but the model has it occupied by %r" % (ch, s["id"], occ.get(ch)))
+                occ[ch] = s["id"]
+                since[s["id"]] = (ch, 0)
+            else:
+                wq.append(s["id"])
+            labels.add("cars_on_site_before_the_run")
     for t in range(sim.iteration):
         for e in by_t.get(t, []):
             sid = e.ev.session_id
@@ -258,14 +285,16 @@ def judge(spec, net, sim, evs, picker, rec, base):
         labels.add("more_sessions_than_stations")
     if any(s.get("declared") in ids for s in spec["sessions"]):
         labels.add("declared_registered_station")
+    if "" in ids:
+        labels.add("station_id_is_the_empty_string")
     return labels
 
 
 def prop_reproducible(spec, rec):
     outs = []
     for _ in range(2):
-        net, sim, evs = build(spec)
         random.seed(spec["seed"])
+        net, sim, evs = build(spec)
         run(sim, None)
         outs.append((np.array(sim.charging_rates), np.array(sim.pilot_signals), {k: (ev.station_id, ev.energy_delivered) for k, ev in evs.items()}, (net.never_charged, net.swaps, net.early_unplug), dict(net.before)))
     a, b = outs
@@ -274,10 +303,29 @@ def prop_reproducible(spec, rec):
     rec.case(spec, {"reproducible"}, len(spec["stations"]) > 1)
 
 
+# station ids are free text: the empty string, digits only, case twins
+ODD_STATIONS = ["", "0", "10", "9", "A", "a"]
+
+
+@st.composite
+def own_cases(draw):
+    """cases() plus, in a quarter of the histories, cars that are on site before the run starts
+    (put into the car park by the caller; only their departures are events).  Kept out of the
+    ledger checks that share cases(): such cars are not sessions of the simulator's ev_history."""
+    spec = draw(cases())
+    if draw(st.integers(0, 3)) == 0:
+        k = draw(st.integers(1, min(5, len(spec["sessions"]))))
+        for s in spec["sessions"][:k]:
+            s["pre"] = True
+            s["departure"] = s["departure"] - s["arrival"]
+            s["arrival"] = 0
+    return spec
+
+
 @st.composite
 def cases(draw):
     n = draw(st.integers(1, 4))
-    ids = list(draw(st.permutations(sc.STATION_POOL)))[:n]
+    ids = list(draw(st.permutations(ODD_STATIONS if draw(st.integers(0, 3)) == 0 else sc.STATION_POOL)))[:n]
     k = draw(st.integers(2, 14))
     sessions = []
     for i in range(k):
@@ -300,8 +348,8 @@ def cases(draw):
 
 def subchecks(tier):
     return [
-        Given("space_assignment", cases(), prop, quick=500, thorough=40000, floors={"waited_then_admitted": 0.3, "departed_while_waiting": 0.15, "early_departure_happened": 0.08, "more_sessions_than_stations": 0.37, "network_object_used_for_a_second_run": 0.1, "constructed_with_positional_arguments": 0.2}),
-        Given("reproducible", cases(), prop_reproducible, quick=60, thorough=3000, jobs_quick=2),
+        Given("space_assignment", own_cases(), prop, quick=500, thorough=40000, floors={"waited_then_admitted": 0.3, "departed_while_waiting": 0.15, "early_departure_happened": 0.08, "more_sessions_than_stations": 0.37, "network_object_used_for_a_second_run": 0.1, "constructed_with_positional_arguments": 0.2, "cars_on_site_before_the_run": 0.08, "station_id_is_the_empty_string": 0.04}),
+        Given("reproducible", own_cases(), prop_reproducible, quick=60, thorough=3000, jobs_quick=2),
     ]
 
 
